@@ -5,5 +5,5 @@ P="$1"; shift
 cd /repo || exit 2
 if ! git diff --quiet; then echo "ERROR: /repo has uncommitted changes"; exit 2; fi
 git apply "$P" || { echo "ERROR: patch does not apply"; exit 2; }
-for c in "$@"; do (cd /verif && ./check "$c" | grep -v " ok " | cut -c1-400); echo "-- $c exit=${PIPESTATUS[0]}"; done
+for c in "$@"; do out=$(cd /verif && ./check "$c" 2>&1); rc=$?; echo "$out" | grep -v " ok " | cut -c1-400; echo "-- $c exit=$rc"; done
 git checkout -- . ; git status --short | grep -v "^??" | head -3
